@@ -633,7 +633,11 @@ def run_scenarios(ctx, prop, scenarios, kinds, nontrivial, tree=False, values=Fa
                 ctx.count('outcome', 'blocked(skipped)')
                 ctx.case(case, nontrivial=False, validated=False)
                 continue
-            d = compare_projected(rec, kinds, tree=tree, values=values, residue=residue)
+            if rec.get('oversize'):
+                ctx.count('outcome', 'oversize-log(model not asked)')
+                d = None
+            else:
+                d = compare_projected(rec, kinds, tree=tree, values=values, residue=residue)
             if d:
                 ctx.disagree(case, d)
             viol = []
@@ -665,7 +669,7 @@ def run_scenarios(ctx, prop, scenarios, kinds, nontrivial, tree=False, values=Fa
                 for a in p:
                     ctx.count('acts', a[0])
             ctx.count('outcome', 'disagree' if d else ('violation' if viol else 'ok'))
-            ctx.case(case, nontrivial=nontrivial(w), validated=d is None)
+            ctx.case(case, nontrivial=nontrivial(w), validated=d is None and not rec.get('oversize'))
         if ctx.time_up():
             break
 
